@@ -1,6 +1,7 @@
 // C19 — ObjectCache: one live object per key, never destroyed while borrowed, exact recycle/expiry.
 #include "phx.h"
 #include <photon/common/expirecontainer.h>
+#include <photon/common/objectcachev2.h>
 #include <map>
 #include <set>
 
@@ -16,6 +17,7 @@ struct KeyState {
     Obj* volatile live = nullptr;
     std::vector<uint64_t> fail_times;   // photon::now when an acquire whose construction failed returned (>= the cache's own record)
     volatile int fail_inflight = 0; volatile uint64_t fail_epoch = 0;
+    bool update_seen = false;           // v2: update() substitutes (or, with a failing constructor, drops) whatever is cached at that moment
 };
 std::map<int, KeyState> keys;
 uint64_t lifespan_us, timer_cycle_us;
@@ -34,7 +36,7 @@ struct Obj {
         sim::NoSched ns;
         if (magic != 0x600DF00D600DF00DULL) HX_VIOL("double-destroy", "object of key %d destroyed twice", key);
         if (href > 0) HX_VIOL("destroyed-while-borrowed", "object of key %d destroyed while %d acquirer(s) still hold it", key, href);
-        if (!expected_destroy && !limited && last_release_now && photon::now < last_release_now + lifespan_us)
+        if (!expected_destroy && !limited && !keys[key].update_seen && last_release_now && photon::now < last_release_now + lifespan_us)
             HX_VIOL("early-expiry", "object of key %d expired %llu us after its last release, lifespan is %llu us", key,
                     (unsigned long long)(photon::now - last_release_now), (unsigned long long)lifespan_us);
         magic = 0xDEADDEADDEADDEADULL;
@@ -55,16 +57,21 @@ struct Op {
     uint64_t cooldown_us = 0, hold_us = 0, pause_us = 0, ctor_us = 0;
     int hold = 0, touches = 1;
     int rel = 0;                  // 0 plain, 1 recycle+destroy, 2 recycle, keep object, 3 plain via ref_release
+    bool update = false;          // v2 only: substitute the cached object at once
 };
 
 phx::World W;
 ObjectCache<int, Obj*>* OC;
+ObjectCacheV2<int, Obj*>* OC2;     // the shared_ptr based cache with the borrow/update API (no acquire/release)
+bool v2 = false;
 std::vector<std::vector<Op>> scripts;
 int n_ops = 0, n_keys = 1, n_workers = 0;
 const uint64_t T_US[] = {1, 20, 50, 100, 200, 500, 1000, 2000, 5000};
 
 void gen_plan() {
     W.nvcpu = 1 + sim::rnd(3);
+    v2 = sim::rnd(3) == 0 && !hx::param("no_v2", 0);
+    if (hx::param("v2", 0)) v2 = true;
     int nth = 2 + sim::rnd(7);
     n_keys = 1 + sim::rnd(3);
     static const uint64_t LS[] = {1000, 2000, 5000, 20000, 50000};
@@ -86,6 +93,7 @@ void gen_plan() {
                 o.hold = sim::rnd(3); o.hold_us = T_US[sim::rnd(7)]; o.touches = 1 + sim::rnd(3);
                 int r = sim::rnd(10);
                 o.rel = r < 5 ? 0 : r < 7 ? 3 : r < 9 ? 1 : 2;
+                o.update = v2 && sim::rnd(8) == 0;
             }
             scripts[t].push_back(o);
         }
@@ -122,6 +130,8 @@ void touch(Obj* p, int t, const Op& o) {
 
 void run_script(int t) {
     phx::ThreadRec& me = W.threads[t];
+    // v2 encodes "never constructed" as time 0: keep photon::now (which starts near 0 in the simulation, unlike a real clock) above every cooldown
+    if (v2) while (photon::now < 12000) thread_usleep(1000);
     for (auto& o : scripts[t]) {
         if (hx::dropped(o.idx)) continue;
         if (o.k == OP_PAUSE) { phx::Where w(me, "pause", o.idx); if (o.pause_us) thread_usleep(o.pause_us); else thread_yield(); continue; }
@@ -131,19 +141,64 @@ void run_script(int t) {
         auto ctor = [&]() -> Obj* {
             KeyState* ks;
             { sim::NoSched ns; ks = &keys[o.key];
-              if (ks->ctor_running) HX_VIOL("concurrent-ctor", "two constructors running at once for key %d (th%d op %d)", o.key, t, o.idx);
+              // (v2 update() substitutes the object at once and by design does not wait for a constructor in progress)
+              if (ks->ctor_running && !o.update) HX_VIOL("concurrent-ctor", "two constructors running at once for key %d (th%d op %d)", o.key, t, o.idx);
               // an unreferenced object that already left the index may still await its destructor; but nobody may still hold it
-              if (ks->live && ks->live->href > 0)
+              if (ks->live && ks->live->href > 0 && !(v2 && (ks->live->expected_destroy || o.update || ks->update_seen)))
                   HX_VIOL("second-object", "constructor called for key %d while %d acquirer(s) still hold the previous object %p (th%d op %d)", o.key, ks->live->href, (void*)ks->live, t, o.idx);
-              ks->ctor_running = 1; my_ctor_ran = true; sim::ev(0xC701, o.key, t); sim::note("th%d op%d ctor key %d kind %d", t, o.idx, o.key, o.ctor); }
+              if (!o.update) ks->ctor_running = 1; my_ctor_ran = true; sim::ev(0xC701, o.key, t); sim::note("th%d op%d ctor key %d kind %d (now=%llu)", t, o.idx, o.key, o.ctor, (unsigned long long)photon::now); }
             if (o.ctor >= 2) { thread_usleep(o.ctor_us); sim::probe("slow_ctor"); }
             Obj* p = nullptr;
             sim::NoSched ns;
-            if (o.ctor == 0 || o.ctor == 2) { p = new Obj(o.key); ks->live = p; }
+            if (o.ctor == 0 || o.ctor == 2) {
+                p = new Obj(o.key);
+                if (v2 && ks->live) ks->live->expected_destroy++;       // v2: a newly installed object supersedes the cached one, which lives on only in its borrowers' hands
+                ks->live = p;
+            }
             else { my_ctor_failed = true; ks->fail_inflight++; ks->fail_epoch++; sim::probe("ctor_failed"); }
-            ks->ctor_running = 0;
+            if (!o.update) ks->ctor_running = 0;
             return p;
         };
+        if (v2) {
+            if (o.update) { sim::NoSched ns; auto& ks = keys[o.key]; ks.update_seen = true; if (ks.live) ks.live->expected_destroy++; sim::probe("v2_update"); }
+            bool recycle = o.rel == 1 || o.rel == 2;
+            {
+                ObjectCacheV2<int, Obj*>::Borrow b;
+                { phx::Where w(me, o.update ? "update" : "borrow", o.idx); b = o.update ? OC2->update(o.key, ctor) : OC2->borrow(o.key, ctor, o.cooldown_us); }
+                Obj* q = b ? &*b : nullptr;
+                if (!q) {
+                    sim::NoSched ns;
+                    sim::probe("acquire_null"); sim::probe("nontrivial");
+                    KeyState& ks = keys[o.key];
+                    sim::note("th%d op%d borrow key %d -> nothing (own ctor ran %d failed %d, call began at now=%llu, now=%llu)", t, o.idx, o.key, (int)my_ctor_ran, (int)my_ctor_failed, (unsigned long long)call_now, (unsigned long long)photon::now);
+                    if (my_ctor_failed) { ks.fail_times.push_back((uint64_t)photon::now); ks.fail_inflight--; ks.fail_epoch++; }
+                    // (update() publishes its time stamp before the object: a borrow racing with it may see "created just now, nothing there")
+                    bool ok = my_ctor_failed || inflight0 > 0 || ks.fail_epoch != epoch0 || ks.update_seen;
+                    if (!ok) for (uint64_t ft : ks.fail_times) if (ft + o.cooldown_us >= call_now) ok = true;
+                    if (!ok) HX_VIOL("spurious-null", "borrow(key %d, cooldown %llu) of th%d returned nothing although no construction failed within the cooldown (op %d)",
+                                     o.key, (unsigned long long)o.cooldown_us, t, o.idx);
+                    continue;
+                }
+                {
+                    sim::NoSched ns;
+                    if (sim::active()) sim::poison_check(q, sizeof(Obj), false);
+                    if (q->magic != 0x600DF00D600DF00DULL) HX_VIOL("use-after-destroy", "borrow(key %d) returned an already destroyed object to th%d (op %d)", o.key, t, o.idx);
+                    q->href++;
+                    if (q->href > 1) { sim::probe("shared_object"); sim::probe("nontrivial"); }
+                    sim::note("th%d op%d borrowed key %d obj %p href=%d", t, o.idx, o.key, (void*)q, q->href);
+                }
+                for (int i = 0; i < o.touches; i++) {
+                    touch(q, t, o);
+                    if (o.hold == 1) thread_yield(); else if (o.hold == 2) thread_usleep(o.hold_us); else sim::yield_point();
+                }
+                touch(q, t, o);
+                if (recycle) { b.recycle(true); sim::probe("recycle_release"); }
+                { sim::NoSched ns; q->href--; q->last_release_now = photon::now; if (recycle) q->expected_destroy++;
+                  sim::note("th%d op%d returns key %d obj %p recycle=%d", t, o.idx, o.key, (void*)q, (int)recycle); }
+                phx::Where w(me, "return-borrow", o.idx);
+            }   // ~Borrow
+            continue;
+        }
         typename ObjectCache<int, Obj*>::ItemPtr item = nullptr;
         Obj* p;
         {
@@ -210,22 +265,22 @@ void harness_run(uint64_t seed) {
     phx::quiet_logs();
     gen_plan();
     char plan[256];
-    snprintf(plan, sizeof plan, "{\"vcpus\":%d,\"threads\":%zu,\"keys\":%d,\"lifespan_us\":%llu,\"timer_cycle_us\":%llu,\"ops\":%d}", W.nvcpu, scripts.size(), n_keys,
+    snprintf(plan, sizeof plan, "{\"cache\":\"%s\",\"vcpus\":%d,\"threads\":%zu,\"keys\":%d,\"lifespan_us\":%llu,\"timer_cycle_us\":%llu,\"ops\":%d}", v2 ? "ObjectCacheV2" : "ObjectCache", W.nvcpu, scripts.size(), n_keys,
              (unsigned long long)lifespan_us, (unsigned long long)timer_cycle_us, n_ops);
     sim::extra_json("plan", plan);
     char nb[32]; snprintf(nb, sizeof nb, "%d", n_ops); sim::extra_json("nops", nb);
     sim::set_poison_property("use-after-destroy");
     for (int k = 0; k < n_keys; k++) keys[k];
-    W.vcpu_pre = [](int v) { if (v == 0) OC = new ObjectCache<int, Obj*>(lifespan_us, timer_cycle_us); };
+    W.vcpu_pre = [](int v) { if (v != 0) return; if (v2) OC2 = new ObjectCacheV2<int, Obj*>(lifespan_us); else OC = new ObjectCache<int, Obj*>(lifespan_us, timer_cycle_us); };
     W.vcpu_end = [](int v) {
         if (v != 0) return;
         while (W.vcpus_down < W.nvcpu - 1) thread_usleep(300);
         // let the expiry timer reap what is unreferenced, then drop the cache
-        thread_usleep(lifespan_us + 2 * timer_cycle_us + 2000);
+        thread_usleep(lifespan_us + 2 * (v2 ? 1000000 : timer_cycle_us) + 2000);      // (the v2 reclaimer wakes up once a second at least)
         if (n_alive > 0) sim::probe("objects_left_for_clear");
         else sim::probe("all_expired_by_timer");
         for (auto& kv : keys) if (kv.second.live) kv.second.live->expected_destroy++;
-        delete OC;
+        if (v2) delete OC2; else delete OC;
         if (n_alive != 0) HX_VIOL("leak", "%d object(s) still alive after the cache was destroyed", n_alive);
     };
     sim::start();
